@@ -375,11 +375,14 @@ def peek_attr(obj: Any, attr: str, inplace: bool = False) -> Any:
     store its freshly computed value on the receiver).
     """
     state = getattr(obj, "__dict__", None)
-    held = inplace or not isinstance(state, dict) or attr in state
-    value = getattr(obj, attr, MISSING)
-    if not held:
-        state.pop(attr, None)
-    return value
+    if inplace or not isinstance(state, dict) or attr in state:
+        return getattr(obj, attr, MISSING)
+    # Not held by the instance itself: evaluate on a throw-away shallow clone,
+    # so that `obj` is not touched even for a moment (other threads may be
+    # reading or copying it).
+    clone = object.__new__(type(obj))
+    clone.__dict__.update(state)
+    return getattr(clone, attr, MISSING)
 
 
 def _check_accepts_attrs(value: Any, expected_type: Optional[Type], attrs: Dict):
